@@ -901,13 +901,13 @@ def gen_specs(rng, thorough):
         gs = all_connected_graphs(N)
         if N == 5 and not thorough:
             gs = [gs[i] for i in sorted(rng.sample(range(len(gs)), cnt(120)))]
-        reps = 3 if (thorough or N < 5) else 1
+        reps = 3 if thorough else (2 if N < 5 else 1)
         for es in gs:
             for _ in range(reps):
                 n = rng.randint(2, N)
                 specs.append(mk(n, N, es))
     # random connected graphs up to 10 vertices, machines larger than the circuit
-    for _ in range(cnt(6000 if thorough else 280)):
+    for _ in range(cnt(6000 if thorough else 240)):
         N = rng.randint(3, 10)
         n = rng.randint(2, min(N, 8))
         specs.append(mk(n, N, random_connected_graph(rng, N),
@@ -1166,6 +1166,8 @@ def run(ck: Check):
                 continue
             ck.bump('moves', {'x': 'exec', 's': 'swap', 'u': 'unswap(backtrack)',
                               'b': 'pam-barrier', 'p': 'pam-block'}[kk], v)
+        if 'lock_wait_s' in r:
+            ck.coverage['waited_for_runtime_lock_s'] = r['lock_wait_s']
         if spec.get('pam'):
             ck.bump('pam_cases', spec['source'])
             pam_dev = max(pam_dev, r.get('variant_dev', 0.0)) if spec['source'] == 'fab' \
